@@ -43,6 +43,11 @@ Removed content may be LONG (kind ``long``, 1.5 - 9 KB: a mail's style sheet, a 
 library), also as the very first thing of a fragment or in the head: whatever a reader decides from the first
 kilobytes of its input (media type, charset, "is this HTML at all") must not change what is removed.
 
+Content documents are independent: an EPUB chapter that ENDS with something still open (CHAPTER_ENDINGS: a removed
+element never closed or closed by the wrong name, an unterminated comment / CDATA / PI / declaration, a cut-off tag, an
+open table cell / title / pre, orphan end tags, a pending entity) may lose the rest of ITSELF, never anything of the
+chapter that follows; the following chapter is a complete body of this grammar and is judged on its own.
+
 Order and separation ("takes nothing else with it"): every construct is bracketed by the BEGIN/END
 markers, ``render(strip=True)`` gives the same document with every removable construct deleted.  The
 check extracts that reference document too and demands that the visible tokens of the real document
@@ -905,6 +910,44 @@ def render_mhtml(doc: str, params: dict) -> bytes:
     return msg.as_bytes()
 
 
+# How a content document may END with something still open: (name, text that opens it, text that would have closed it).
+# {u} is a token whose fate inside that document is debatable (class u); what matters is the NEXT document.
+CHAPTER_ENDINGS = (
+    ("open-iframe", '<iframe src="f.html" width="1" height="1">{u}', "</iframe>"),
+    ("open-object", '<object data="m.swf"><param name="a" value="b"/>{u}', "</object>"),
+    ("open-noscript", '<noscript><img src="p.gif" alt=""/>{u}', "</noscript>"),
+    ("open-applet", '<applet code="A.class">{u}', "</applet>"),
+    ("open-script", '<script type="text/javascript">var a = "{u}";', "</script>"),
+    ("open-style", '<style type="text/css">.c {{ d: "{u}" }}', "</style>"),
+    ("open-script-upper", '<SCRIPT>{u}', "</SCRIPT>"),
+    ("misnested-endtag-never-matches", '<noscript><div>{u}</div></noscrip>', "</noscript>"),
+    ("open-iframe-closed-by-other-name", '<iframe src="f.html">{u}</object>', "</iframe>"),
+    ("nested-same-name-one-end-missing", '<object data="a"><object data="b">{u}</object>', "</object>"),
+    ("open-comment", '<!-- {u}', " -->"),
+    ("open-conditional-comment", '<!--[if mso]><p>{u}</p>', "<![endif]-->"),
+    ("open-cdata", '<![CDATA[ {u}', " ]]>"),
+    ("open-pi", '<?php echo "{u}"; ', "?>"),
+    ("open-declaration", '<!ELEMENT {u} (x)', ">"),
+    ("cut-off-start-tag", '<a href="x.html" title="{u}', '">x</a>'),
+    ("cut-off-attribute", '<p class=', '"c">{u}</p>'),
+    ("open-table-cell", '<table><tr><td>{u}', "</td></tr></table>"),
+    ("open-title", '<title>{u}', "</title>"),
+    ("open-pre", '<pre>{u}\n', "</pre>"),
+    ("open-blocks", '<div><blockquote><p>{u}', "</p></blockquote></div>"),
+    ("orphan-removable-endtags", '{u}</script></noscript></iframe></object></style>', ""),
+    ("pending-entity", '{u} &amp', ";"),
+)
+
+
+def open_ended_chapter(ending: tuple, vis: str, unj: str, terminated: bool, closers: bool) -> str:
+    """A complete chapter document with a visible paragraph, then ``ending`` (terminated: its benign, closed form)."""
+    head = ('<?xml version="1.0" encoding="utf-8"?>\n<html xmlns="http://www.w3.org/1999/xhtml"><head><title>Before</title></head>\n<body>\n'
+            f"<p>{vis}</p>\n")
+    name, open_, close = ending
+    body = open_.format(u=unj) + (close if terminated else "")
+    return head + body + ("\n</body></html>\n" if (closers or terminated) else "")
+
+
 def render_msg(doc: str, params: dict) -> bytes:
     """Minimal Outlook .msg (compound file): subject, transport headers and the HTML body in PidTagHtml (0x1013, binary)."""
     from vlib.gen import cfb
@@ -932,8 +975,12 @@ def render_epub(doc: str, params: dict) -> bytes:
     mt = "application/xhtml+xml" if xhtml else "text/html"
     d = params.get("dir", "OEBPS/")
     second = params.get("second")
+    before = params.get("before")        # a chapter in front of the judged one (spine order: ch0, ch1, ch2)
     items = f'<item id="c1" href="ch1.{ext}" media-type="{mt}"/>'
     refs = '<itemref idref="c1"/>'
+    if before:
+        items = f'<item id="c0" href="ch0.{ext}" media-type="{mt}"/>' + items
+        refs = '<itemref idref="c0"/>' + refs
     if second:
         items += f'<item id="c2" href="ch2.{ext}" media-type="{mt}"/>'
         refs += '<itemref idref="c2"/>'
@@ -949,6 +996,8 @@ def render_epub(doc: str, params: dict) -> bytes:
         z.writestr(zipfile.ZipInfo("mimetype"), "application/epub+zip", compress_type=zipfile.ZIP_STORED)
         z.writestr("META-INF/container.xml", container, compress_type=comp)
         z.writestr(f"{d}content.opf", opf, compress_type=comp)
+        if before:
+            z.writestr(f"{d}ch0.{ext}", before.encode("utf-8"), compress_type=comp)
         z.writestr(f"{d}ch1.{ext}", doc.encode("utf-8"), compress_type=comp)
         if second:
             z.writestr(f"{d}ch2.{ext}", second.encode("utf-8"), compress_type=comp)
